@@ -14,7 +14,7 @@ ID = "C04"
 BUDGET = {"quick": 2600, "thorough": 70000}
 REQUIRED = ["judged:shared-edge-sequences", "judged:anti-aligned-shared-edge", "judged:preserve-start/end",
             "judged:preserve-through-flipped-block", "judged:multi-section", "judged:simpleGrading-four-wires-equal",
-            "judged:file-vs-hooked-state", "kind:edgeGrading", "kind:simpleGrading", "judged:sandwich-family"]
+            "judged:file-vs-hooked-state", "kind:edgeGrading", "kind:simpleGrading", "judged:sandwich-family", "judged:assembly-with-arc-edges"]
 MIN_KEYS = 40
 RULE = (
     "jittered lattice assemblies (all edge lengths distinct), 24 orientations per block, exactly one chopped block per "
@@ -24,7 +24,7 @@ RULE = (
     "#sections, anti-aligned?, flipped chain?)"
 )
 ASSUMPTIONS = [
-    "edges are straight: physical length = distance between the written vertices",
+    "edges are straight or circular arcs given by a third point: physical length = chord or the analytic arc length (vf.geom)",
     "blockMesh multi-grading semantics (OpenFOAM user guide 4.3.1.3): sections normalised by the sum of fractions",
     "relative tolerance 1e-6 on cell sizes (the library compares gradings with rel 1e-7)",
     "a ValueError for a preserved size that does not fit a short edge counts as 'rejected', not as a violation",
@@ -82,6 +82,21 @@ def gen_case(ctx):
     case = lattice.gen_assembly(rng, jitter=0.15, max_blocks=12)
     fid, fam, _ = lattice.families(case)
     scale = 0.6
+    # circular-arc edges of analytically known length on a few lattice edges (node ids < 1000: exact lattice nodes)
+    case["arcs"] = {}
+    if rng.random() < 0.4:
+        pos = {}
+        for blk in case["blocks"]:
+            for n, p in zip(blk["nodes"], blk["pts"]):
+                pos[n] = np.array(p)
+        pairs = sorted({tuple(sorted((blk["nodes"][e[0]], blk["nodes"][e[1]]))) for blk in case["blocks"] for e in hexconv.EDGES})
+        for pr in rng.sample(pairs, min(len(pairs), rng.randint(1, 4))):
+            a, b = pos[pr[0]], pos[pr[1]]
+            c = b - a
+            perp = np.cross(c, [0.31, 0.57, 0.76])
+            perp = perp / np.linalg.norm(perp)
+            t = rng.choice([0.35, 0.5, 0.6])
+            case["arcs"][f"{pr[0]}-{pr[1]}"] = list(a + c * t + perp * np.linalg.norm(c) * rng.uniform(0.1, 0.3))
     for r in sorted(fam, key=lambda x: fam[x][0]):
         members = fam[r]
         if len(members) >= 3 and rng.random() < 0.35:
@@ -106,6 +121,15 @@ def gen_case(ctx):
         for kw in gen_chops(rng, scale):
             case["blocks"][b]["chops"].append([a, kw])
     return case
+
+
+def edge_length(case, nodepos, na, nb):
+    """physical length of the lattice edge: straight, or the analytic arc through its third point"""
+    key = "-".join(str(n) for n in sorted((na, nb)))
+    arcs = case.get("arcs") or {}
+    if key in arcs:
+        return geom.arc_length_through(nodepos[min(na, nb)], arcs[key], nodepos[max(na, nb)])
+    return float(np.linalg.norm(nodepos[na] - nodepos[nb]))
 
 
 def sizes_of(length, spec):
@@ -176,7 +200,7 @@ def run_case(ctx, case):
         if len(users) < 2:
             continue
         n0, n1 = sorted(pr)
-        length = float(np.linalg.norm(nodepos[n0] - nodepos[n1]))
+        length = edge_length(case, nodepos, n0, n1)
         seqs = []
         for b, a, k, directed in users:
             s = sizes_of(length, spec_file[(b, a, k)])
@@ -215,7 +239,7 @@ def run_case(ctx, case):
         for b, a in members:
             for k, e in enumerate(hexconv.AXIS_EDGES[a]):
                 na, nb = blocks[b]["nodes"][e[0]], blocks[b]["nodes"][e[1]]
-                lens[(b, a, k)] = float(np.linalg.norm(nodepos[na] - nodepos[nb]))
+                lens[(b, a, k)] = edge_length(case, nodepos, na, nb)
         lavg = sum(lens[(b0, a0, k)] for k in range(4)) / 4
         distinct_lengths = len({round(v, 9) for v in lens.values()}) >= 2
         lr_sum = sum(kw.get("length_ratio", 1.0) for kw in kws)
@@ -272,7 +296,9 @@ def run_case(ctx, case):
                             return
         nb, nface, nedge, nvert = lattice.contact_summary(case)
         nontrivial = distinct_lengths and (anti_seen or any(f[0] != "c2c_expansion" for f in feats) or any(f[2] > 1 for f in feats))
-    ctx.key([lattice.contact_summary(case), sorted(feats), anti_seen, flipped_chain], nontrivial=nontrivial)
+    if case.get("arcs"):
+        ctx.count("judged:assembly-with-arc-edges")
+    ctx.key([lattice.contact_summary(case), sorted(feats), anti_seen, flipped_chain, bool(case.get("arcs"))], nontrivial=nontrivial)
     ctx.sample({"dims": case["dims"], "blocks": [{"cell": b["cell"], "perm": b["perm"], "chops": b["chops"]} for b in blocks]})
 
 
